@@ -46,6 +46,20 @@ func unwrapError(msg string, err error) error {
 	}
 }
 
+// errCodeOf extracts the error code of the errors the search and skip helpers return
+// (error Nodes from this package, meta.Error from proto/binary); anything else is a read error.
+func errCodeOf(err error) meta.ErrCode {
+	switch v := err.(type) {
+	case Node:
+		return v.ErrCode()
+	case Value:
+		return v.ErrCode()
+	case meta.Error:
+		return v.Code
+	}
+	return meta.ErrRead
+}
+
 //go:noinline
 func wrapValue(n Node, desc *proto.TypeDescriptor) Value {
 	return Value{
